@@ -6,6 +6,10 @@ CONSTANTS
   MAXPINGS = 2
   BODIES <- MCBodies
   MULTS <- MCMults
+  ACCTS <- MCAccts
+  MAXSSENT = 2
+  MAXACCTS = 1
+  POSTPONE = TRUE
   CHANCAP = 3
 SPECIFICATION LSpec
 VIEW View
